@@ -433,7 +433,10 @@ ReadResult BinaryFileReader::internal_read_file(TopologyKernel &out)
         state_ = ReadState::ErrorEndNotReached;
         return ReadResult::InvalidFile;
     }
-    if (file_header_.n_verts != out.n_vertices()
+    // vertices are allocated up front from the header, so only the number of
+    // vertices actually read from VERT chunks can reveal missing vertex data
+    if (file_header_.n_verts != n_verts_read_
+            || file_header_.n_verts != out.n_vertices()
             || file_header_.n_edges != out.n_edges()
             || file_header_.n_faces != out.n_faces()
             || file_header_.n_cells != out.n_cells())
